@@ -320,8 +320,8 @@ def staleend_stream(ctx, count, repl="[$1|$2]"):
 
 def grammar_tree_stream(ctx, count, repl=""):
     """pattern texts printed from random trees of the grammar of coq/Proofs/GroupGrammar.v (runs of
-    ordinary characters, quantified characters c? c* c+ and their reluctant forms, the anchors ^ $ under
-    XPath, alternation, capturing and non-capturing groups, empty branches, any nesting): the domain of the theorems
+    ordinary characters, quantified characters c? c* c+ c{n} c{n,} c{n,m} and their reluctant forms, the dot
+    (bare or quantified, with and without flag s), the anchors ^ $ under XPath, alternation, capturing and non-capturing groups, empty branches, any nesting): the domain of the theorems
     C01_group_grammar_end_to_end_partial / C06_group_grammar_tokenize_end_to_end_partial, on which model = specification
     is proved; here the code is compared with both.  Own generator state."""
     rng = random.Random(ctx.seed * 32452843 + 13)
@@ -337,11 +337,14 @@ def grammar_tree_stream(ctx, count, repl=""):
             if k < 0.4:
                 out += run(al)
             elif k < 0.75:
-                q = rng.choice("?*+")
+                q = rng.choice(["?", "*", "+", "?", "*", "+", "{2}", "{0,2}", "{1,}", "{2,3}", "{0,1}", "{3}", "{10,12}", "{02,3}"])
                 if xpath and rng.random() < 0.4:
                     q += "?"
-                out += run(al) + rng.choice(al) + q
-            elif k < 0.85 and xpath:
+                atom = "." if rng.random() < 0.25 else rng.choice(al)
+                out += run(al) + atom + q
+            elif k < 0.80:
+                out += run(al) + "."
+            elif k < 0.88 and xpath:
                 out += run(al) + rng.choice("^$")
             elif depth > 0:
                 cap = (not xpath) or rng.random() < 0.5
@@ -357,7 +360,7 @@ def grammar_tree_stream(ctx, count, repl=""):
         al = rng.choice(["ab", "abc", "aAb", ordinary])
         pat = alt(rng.choice([0, 1, 2, 3]), al, d == "xpath")
         fl = rng.choice(["", "", "i", "m", "s", "im"])
-        for inp in gen.inputs_for(rng, al + ("\n" if ("^" in pat or "$" in pat) else ""), 4):
+        for inp in gen.inputs_for(rng, al + ("\n" if ("^" in pat or "$" in pat or "." in pat) else ""), 4):
             out.append((d, fl, pat, inp, repl))
     return out
 
@@ -397,6 +400,13 @@ def slice_C01(ctx):
         ch = {"\\n": "\n", "\\\\": "\\"}.get(esc, esc[-1])
         for inp in ("b", "xyz", lit, lit + ch, lit + ch * 2, lit * 2 + ch, lit[:-1] + ch, lit + ch + lit + ch + "c", ""):
             tuples.append(("xpath", "", pat_, inp, "", "escape-quantified"))
+    # the dot against every character around the two it excludes (and the other Unicode line breaks,
+    # which it does not exclude), with and without flag s
+    for pat_ in ["^.$", ".", "a.b", "^.+$", "^(?:.|x)*$", "[^a].", "^.{2}$", "^..?$"]:
+        for fl in ("", "s", "m", "i"):
+            for ch in "\t\n\x0b\x0c\r\x0e\x1c\x1e\x85\u2028\u2029 ":
+                for inp in (ch, "a" + ch + "b", ch + ch, "x" + ch):
+                    tuples.append(("xpath", fl, pat_, inp, "", "dot-controls"))
     # (b) seeded random structured patterns incl. back-references
     for d, fl, pat, inp, ast in random_stream(ctx, ctx.n(24000, 240000), shapes=0.3, per_pattern=5):
         tuples.append((d, fl, pat, inp, "", "random"))
@@ -457,6 +467,11 @@ def slice_C02(ctx):
     for p in ["^.*\n", "^a\n", "^[ab]+\n", "^.*$\n?", "^a?\n", "(?:^b\n)+?", "^.\n|^..\n"]:
         for inp in gen.all_strings("a\n", 5) + ["l1\nl2\nl3", "a\nb\na\n", "ab\n\nab\n"]:
             tuples.append(("xpath", "m", p, inp, "", "lines"))
+    # long inputs: a start position that needs well over a thousand single give-backs of a greedy
+    # repeat before it succeeds (or before the scan may move on) - no bound on backtracking depth
+    for p, inp in [("[ab][^b]*c", "ac" + "z" * 1500 + "bc"), (".*x", "x" + "a" * 1200), ("a[^c]*cd", "a" + "b" * 1100 + "cd" + "b" * 1100 + "c"),
+                   ("[ab]+b", "a" * 1300 + "b" + "a" * 1300), ("(?:a|b)[ab]*ba", "ba" + "b" * 1250), ("a.*?bc", "a" + "b" * 1150 + "c")]:
+        tuples.append(("xpath", "", p, inp, "", "long"))
     cases = mk_cases(tuples, "art")
     for c in cases:
         c.repl = "\u0001$0\u0002"
@@ -685,6 +700,20 @@ def slice_C04(ctx):
             tuples.append(("xpath", rng_p.choice(["", "i"]), p_, inp, "", "punct"))
     for d, fl, pat, inp, _ in staleend_stream(ctx, ctx.n(600, 6000)):
         tuples.append((d, fl, pat, inp, "", "staleend"))
+    # a pattern led by ^ under flag m: the scan has to come back to the start-of-line search after
+    # every match (several lines, each with a match), in all three APIs alike
+    rng_l = random.Random(ctx.seed * 32452843 + 4)
+    line_pats = ["^-", "^a", "^a+", "^(?:a|b)", "^[ab]", "^a|^b", "^.", "^ab?", "^(a)(b)?", "^a+?b", "^\\w+", "^[^a\n]"]
+    line_inps = ["-a\n-b\n-c", "a\na\na", "ab\nba\nab", "\na\n\nb", "a", "b\na", "aa\r\naa\naa", "ab\nab", "a\n", "\n\na\nab\n-"]
+    for p_ in line_pats:
+        for fl in ("m", "ms", "im"):
+            for inp in line_inps:
+                tuples.append(("xpath", fl, p_, inp, "", "lines"))
+    for _ in range(ctx.n(150, 1500)):
+        g = gen.Gen(rng_l, alphabet="ab", feats={"cls", "grp", "alt", "quant", "nc"})
+        _, p_ = g.pattern(rng_l.randint(1, 4))
+        inp = "\n".join("".join(rng_l.choice("ab-") for _ in range(rng_l.randint(0, 3))) for _ in range(rng_l.randint(2, 4)))
+        tuples.append(("xpath", rng_l.choice(["m", "ms"]), "^" + p_, inp, "", "lines"))
     cases = []
     cid = 0
     for t in tuples:
@@ -994,6 +1023,13 @@ def slice_C06(ctx):
                 p = pre + (b if not b.startswith("\\1") or pre == "(x?)" else "(?:a)") + q + post
                 for inp in ("", "a", "aab", "cc", "abc", "bbbbbbbb"):
                     tuples.append(("xpath", rng.choice(["", "m"]), p, inp, "-"))
+    # a quantified back-reference as the last term of the pattern (nothing follows it: the only follower
+    # for which the compiler's ambiguity test has nothing to compare), to a group that is empty or has
+    # not taken part
+    for pre in ("(x?)", "(x)?b", "(x?)b", "(a*)", "(?:(a)|b)", "(a|)c?"):
+        for q in quants:
+            for inp in ("", "a", "b", "abc", "xbx", "c"):
+                tuples.append(("xpath", "", pre + "\\1" + q, inp, "-"))
     # counted repeats whose count exceeds what is left of the input, over terms that are zero-width only
     # at run time (an anchor alternative tried second, a back-reference to an empty group): the work must
     # follow the input, not the number in the quantifier
@@ -1202,6 +1238,15 @@ def slice_C08(ctx):
                 for k in (1, 2, 3):
                     tuples.append(("xpath", rng.choice(["", "m"]), p, ht + unit * k + tt, "<$0>"))
                 tuples.append(("xpath", "", p, "x" + ht + unit * 2 + "x" + tt, "<$0>"))
+    # a repeated class that is not closed under case (category escapes, one-case ranges) followed by a
+    # literal or class of the other case, under flag i: the first sets overlap through the case mapping
+    for cls in ["\\p{Lu}", "\\p{Ll}", "[\\p{Lu}]", "\\P{Ll}", "[A-Z]", "[a-z]", "[\\p{Lu}-[A]]", "\\p{Lt}", "[\\p{Ll}0-9]"]:
+        for q in ("+", "*", "{1,3}", "+?", "{2,}"):
+            for t in ("b", "B", "[b]", "\u00e9", "\u00c9", "(?:b|c)", "b$"):
+                p = cls + q + t
+                for fl in ("i", "", "im"):
+                    for inp in ("AB", "ab", "Ab", "aB", "xABy", "xaby", "AAB", "aab", "\u00c9\u00e9", "\u00e9\u00c9", "Bb", "bB"):
+                        tuples.append(("xpath", fl, p, inp, "<$0>"))
     longs = ["abcabcabc", "a{5}b{5}", "(?:abc){3}", "[ab]{6}c"]
     for p in longs:
         for inp in ("", "abcabcab", "abcabcabc", "aaaaabbbbb", "ababab" + "c"):
@@ -1467,6 +1512,18 @@ def slice_C11(ctx):
             ids = []
             for (p_, i_, f_) in ((pat, inp, "i"), (pat2, inp, "i"), (pat, inp2, "i"), (pat2, inp2, "i"), (pat, inp, "")):
                 cases.append(Case(cid, "xpath", f_, p_, i_, "", "ma", tag=name))
+                ids.append(str(cid))
+                cid += 1
+            groups_.append(ids)
+    # ranges whose two end points are case-less but which hold letters of one case (or both) between them:
+    # under i the letters' counterparts belong to the class as well
+    for pat_ in ["^[ -_]+$", "^[^ -_]$", "^[\\[-~]+$", "^[^\\[-~]+$", "^[\u00d7-\u00f7]$", "[0-_]x", "^[!-`]+$", "^[ -_-[A-M]]+$",
+                 "x[ -_]{2}", "^[^!-@\\[-`]+$", "^[\u00bf-\u00d7]+$"]:
+        for inp in ["HELLO WORLD", "Q", "az", "\u00c0\u00d8", "Mx", "abc XYZ", "m", "\u00f8", "xAb", "zz", "\u00e0\u00c9"]:
+            inp2 = inp.swapcase()
+            ids = []
+            for (p_, i_, f_) in ((pat_, inp, "i"), (pat_, inp, "i"), (pat_, inp2, "i"), (pat_, inp2, "i"), (pat_, inp, "")):
+                cases.append(Case(cid, "xpath", f_, p_, i_, "", "ma", tag="caseless-range"))
                 ids.append(str(cid))
                 cid += 1
             groups_.append(ids)
@@ -2040,8 +2097,10 @@ def slice_C17(ctx):
     ext = ["a*?", "a+?b", "a??", "a{1,2}?", "(?:a)", "(?:a|b)c", "(a)\\1", "\\$", "a\\$b", "(a)(b)\\2", "^a", "a$", "^", "$", "a^b", "a$b", "[$^]", "a|^", "(^)", "\\^"]
     extra = []
     for p in ext:
-        for inp in ("", "a", "ab", "aa", "a$b", "a^b", "^a", "a$", "$", "^", "$^"):
-            extra.append(("xsd", "", p, inp, "-", "ext"))
+        for inp in ("", "a", "ab", "aa", "a$b", "a^b", "^a", "a$", "$", "^", "$^", "x^ay", "b\n^a", "a$\nb"):
+            # the flags do not change what is syntax: ^ and $ stay ordinary characters under m as well
+            for fl in ("", "m", "ms", "i"):
+                extra.append(("xsd", fl, p, inp, "-", "ext"))
             extra.append(("xpath", "", p, inp, "-", "ext"))
     for d, fl, pat, inp, ast in random_stream(ctx, ctx.n(6000, 60000), feats={"cls", "esc", "grp", "alt", "quant", "dot"},
                                               flagsets=["", "i", "s", "is", "x"], per_pattern=3, dialects=("xsd",)):
@@ -2158,7 +2217,7 @@ def slice_C18(ctx):
     path = os.path.join(tie.WORK, f"hist_{ctx.seed}.txt")
     open(path, "w").write("\n".join(lines) + "\n")
     outs = {}
-    for mode in ("shared", "threads", "fresh"):
+    for mode in ("shared", "threads", "fresh", "threads-fresh"):
         p = subprocess.run([tie.HARNESS, "history", mode], stdin=open(path), capture_output=True, text=True)
         if p.returncode != 0:
             raise RuntimeError("history harness failed: " + p.stderr[-500:])
@@ -2213,7 +2272,7 @@ def slice_C18(ctx):
         return out
     progress = {}
     for k, op in enumerate(ops):
-        for mode in ("shared", "threads", "fresh"):
+        for mode in ("shared", "threads", "fresh", "threads-fresh"):
             got = outs[mode].get(str(k))
             if op[0] in ("m", "r"):
                 cidk, fld = where[k]
@@ -2250,9 +2309,9 @@ def slice_C18(ctx):
                 else:
                     nontrivial.add((byid[cidk].key(), mode, n))
     r = result(ctx, cases, dis, violations[:50], nontrivial,
-               f"one seeded history of {nops} operations (is_match, replace_all, open tokenize/analyze, next on a live iterator, drop) over a pool of {len(pool)} regexes with interleaved, partially consumed iterators; executed on shared objects sequentially, from 8 threads on shared objects (each thread the whole history), and on freshly compiled objects; every result compared with the model's pure function of (pattern, flags, dialect, arguments)",
-               {"operations": nops, "modes": ["shared", "threads(8)", "fresh"], "send_sync_assert": "compile-time assert in the harness"})
-    r["evaluations"] = nops * 3
+               f"one seeded history of {nops} operations (is_match, replace_all, open tokenize/analyze, next on a live iterator, drop) over a pool of {len(pool)} regexes with interleaved, partially consumed iterators; executed on shared objects sequentially, from 8 threads on shared objects (each thread the whole history), on freshly compiled objects, and from 8 threads each compiling a fresh object for every use (compilations in both dialects concurrent with each other and with matching); every result compared with the model's pure function of (pattern, flags, dialect, arguments)",
+               {"operations": nops, "modes": ["shared", "threads(8)", "fresh", "threads(8)-fresh"], "send_sync_assert": "compile-time assert in the harness"})
+    r["evaluations"] = nops * 4
     return r
 
 
